@@ -34,7 +34,7 @@ def props_of(cls):
 
 
 def gen_cfg(name, **kw):
-    c = dict(Vals='<- ValsNeg', MaxSteps=3, MaxIllegal=1, Cuts='FALSE', ChainSetName='"single"', SampleN=0, MaxSubs=1, FaultSetName='"none"', SrcBaseName='"sub"')
+    c = dict(Vals='<- ValsNeg', MaxSteps=3, MaxIllegal=1, Cuts='FALSE', ChainSetName='"single"', SampleN=0, MaxSubs=1, FaultSetName='"none"', SrcBaseName='"sub"', NilErr='FALSE')
     c.update(kw)
     lines = ['SPECIFICATION Spec', 'CONSTANTS'] + [(' %s %s' % (k, v)) if str(v).startswith('<-') else (' %s = %s' % (k, v)) for k, v in c.items()]
     lines += ['INVARIANTS TypeOK Grammar ClosedImpliesTorn EmitCase']
